@@ -665,8 +665,10 @@ def r1_four_branch_agreement(ctx):
 
 
 def _members(ctx, docs):
-    """the members the constructor's docstring promises: nonlin_terms = 0, A1 / A0 = inv(A) A_1 / inv(A) A_0 (generic M, B, K: the LaTeX formulas
-    themselves, not the parametrisation of the history runs)"""
+    """the members the constructor's docstring lists: nonlin_terms = 0 (documented value), and Ad / A1 / A0, "decomposed versions" of A, A_1, A_0
+    (generic M, B, K: the LaTeX formulas themselves, not the parametrisation of the history runs).  What exactly the three arrays hold is a
+    private contract between the constructor and tsolve - the history obligations of R1 / R2 decide the documented matrices whatever it is -
+    so these are recorded as documentation consistency (nontrivial=False): agreement is noted, another representation is not an alarm"""
     where = ctx.src.func(NM, "SolveNewmark.__init__")
     for unc in (UNC_F, CPL):
         for m_none in (False, True):
@@ -687,8 +689,8 @@ def _members(ctx, docs):
             Amat = Ad.mat if isinstance(Ad, I.LU) else Ad
             if isinstance(Amat, I.NDArr) and Amat.shape == shape:
                 ok = _eq(Amat, want["A"])
-                ctx.check(ok, f"{tag}: the member Ad holds the documented A = {docs['A']}" + ("" if unc else " (factored)"), where,
-                          None if ok else _show(Amat))
+                ctx.ok(f"{tag}: the member Ad " + (f"holds the documented A = {docs['A']}" + ("" if unc else " (factored)") if ok else
+                                                   "is kept in a representation of its own; the documented A is decided on the history"), where, nontrivial=False)
             else:
                 # the docstring only promises 'a decomposed version of A': another representation is decided by the history (R1)
                 ctx.ok(f"{tag}: the member Ad is kept in a representation of its own; the documented A is decided on the history", where, nontrivial=False)
@@ -703,7 +705,8 @@ def _members(ctx, docs):
                 As = I.NDArr.new(shape, sc)
                 lhs = As * v if unc else As @ v
                 ok = _eq(lhs, want[key] * L)
-                ctx.check(ok, f"{tag}: the member {nm} is inv(A) times the documented {key} = {docs[key]}", where, None if ok else _show(v))
+                ctx.ok(f"{tag}: the member {nm} " + (f"is inv(A) times the documented {key} = {docs[key]}" if ok else
+                                                     f"is kept in a representation of its own; the documented {key} is decided on the history"), where, nontrivial=False)
 
 
 def r2_code_equals_documentation(ctx):
@@ -870,8 +873,20 @@ def _same_value(x, y, depth=0):
     return type(x) is type(y) and x == y
 
 
-def _strip(trace, cls="SolveCDF."):
-    return [t for t in trace if not t.startswith(cls)]
+def _documented_members(ctx):
+    """names of the first column of the member table in SolveUnc.__init__'s docstring (what `identical to SolveUnc` can be held to)"""
+    doc = ast.get_docstring(ctx.src.func(UNC, "SolveUnc.__init__"), clean=True) or ""
+    names, rules_seen = set(), 0
+    for line in doc.splitlines():
+        if re.match(r"\s*=+\s+=+\s*$", line):
+            rules_seen += 1          # rule above the header, rule below the header, rule below the body
+            continue
+        m = re.match(r"\s*([A-Za-z_]\w*)\s{2,}\S", line)
+        if rules_seen == 2 and m:
+            names.add(m.group(1))
+    if len(names) < 10:
+        raise AnchorError("member table of SolveUnc.__init__'s docstring")
+    return names
 
 
 def _diag_damping_case(ctx, where, tag, m, b, k, with_generator, order=1, rf=None):
@@ -888,9 +903,8 @@ def _diag_damping_case(ctx, where, tag, m, b, k, with_generator, order=1, rf=Non
             obj = it.instantiate(it.cls(rel, cname), m.copy(), b.copy(), k.copy(), H, order=order, **kw)
             mem = dict(obj.attrs)
             sol = it.call_method(obj, "tsolve", f.copy(), d0.copy(), v0.copy())
-            out = {"obj": obj, "members": mem, "sol": sol, "trace": list(it.trace)}
+            out = {"obj": obj, "members": mem, "sol": sol}
             if with_generator:
-                n0 = len(it.trace)
                 got = it.call_method(obj, "generator", nt, f[:, 0].copy(), d0.copy(), v0.copy())
                 gen = got[0] if isinstance(got, tuple) and got else None
                 if not isinstance(gen, I.PyIter) or not isinstance(gen.it, I.GenDriver):
@@ -898,7 +912,6 @@ def _diag_damping_case(ctx, where, tag, m, b, k, with_generator, order=1, rf=Non
                 for i in range(1, nt):
                     I._gen_send(gen.it, (i, f[:, i].copy()))
                 out["gsol"] = it.call_method(obj, "finalize")
-                out["gtrace"] = list(it.trace[n0:])
             return out
         ok, r = _guard(ctx, f"{tag}: {cname}", where, go)
         if not ok:
@@ -908,16 +921,13 @@ def _diag_damping_case(ctx, where, tag, m, b, k, with_generator, order=1, rf=Non
     bad = []
     if c["members"].get("cdforces") is not False or "bo" in c["members"] or c["members"].get("unc") is not True:
         bad.append(f"cdforces={c['members'].get('cdforces')!r}")
-    keys = (set(c["members"]) | set(u["members"])) - {"mid", "bid", "kid"}          # the id()s of the caller's arrays
+    keys = ((set(c["members"]) | set(u["members"])) & _documented_members(ctx)) - {"mid", "bid", "kid"}          # mid, bid, kid: id()s of the caller's arrays
     diff = sorted(q for q in keys if q not in c["members"] or q not in u["members"] or not _same_value(c["members"][q], u["members"][q]))
     if diff:
         bad.append(f"members differ: {diff}")
     for what in ("sol",) + (("gsol",) if with_generator else ()):
         if not (isinstance(c[what], I.Obj) and isinstance(u[what], I.Obj) and all(_eq(c[what].attrs.get(q), u[what].attrs.get(q)) for q in "dva")):
             bad.append(f"{'tsolve' if what == 'sol' else 'generator/finalize'} histories differ")
-    for what in ("trace",) + (("gtrace",) if with_generator else ()):
-        if _strip(c[what]) != _strip(u[what]):
-            bad.append(f"executed functions differ: {[t for t in _strip(c[what]) if t not in u[what]]}")
     return bad
 
 
@@ -936,13 +946,13 @@ def r4_cdf_equals_unc_on_diagonal(ctx):
         if bad is None:
             okrun = False
             continue
-        bad_members += [f"{tag}: {x}" for x in bad if not x.startswith("executed")]
-        bad_paths += [f"{tag}: {x}" for x in bad if x.startswith("executed") or "histories" in x]
+        bad_members += [f"{tag}: {x}" for x in bad if "histories" not in x]
+        bad_paths += [f"{tag}: {x}" for x in bad if "histories" in x]
     if okrun:
-        ctx.check(not bad_members, "with diagonal damping (vector or diagonal matrix) SolveCDF(m, b, k, h) has exactly the members of SolveUnc(m, b, k, h), "
-                                   "cdforces stays False, and tsolve / generator + finalize return the same histories", where, bad_members or None)
-        ctx.check(not bad_paths, "with diagonal damping tsolve and generator of SolveCDF execute exactly the functions SolveUnc executes: no "
-                                 "damping-as-force code is reached when cdforces is False", where, bad_paths or None)
+        ctx.check(not bad_members, "with diagonal damping (vector or diagonal matrix, orders 0 and 1, rf modes) SolveCDF(m, b, k, h) has the documented "
+                                   "members of SolveUnc(m, b, k, h) with the same values, cdforces stays False and there is no bo", where, bad_members or None)
+        ctx.check(not bad_paths, "with diagonal damping tsolve and generator + finalize of SolveCDF run (no damping-as-force state is needed when cdforces is "
+                                 "False) and return exactly the histories of SolveUnc", where, bad_paths or None)
     # coupled damping on otherwise diagonal equations
     b = fm("b")
     it = _cdf_interp(ctx)
